@@ -61,6 +61,11 @@ class PTable(EngineBase):
                 pr["threads"] = {str(pid): [pr["comm"], 0, 0],
                                  str(200 + pid): ["thr", 1, 2]}
             procs.append(pr)
+        if prop == "C01" and rng.random() < 0.25:
+            # a platform that lists PID 0: signalling it must be refused
+            pr = gen.gen_proc(rng, 0, 0, files, rich=False, start=1)
+            procs.insert(0, pr)
+            pool = [0] + pool
         world = {"procs": procs, "files": files, "pool": pool,
                  "pid_lo": lo, "pid_hi": lo + npool - 1,
                  "root": rng.random() < 0.8,
@@ -566,6 +571,12 @@ class PTable(EngineBase):
             self._track_gone(psutil, st, op, out)
             return
         h = st["cur_handle"]
+        if h.pid == 0 and kind == "set":
+            # who=0 means "the caller" to the kernel and the statement only
+            # speaks of signals for PID 0: setters on such a handle are not
+            # judged
+            self._track_gone(psutil, st, op, out)
+            return
         deliveries = [e for e in eff if e["kind"] in (
             "kill", "setpriority", "ioprio_set", "affinity_set", "prlimit")
             and not (e["kind"] == "kill" and e["sig"] == 0)]
